@@ -92,6 +92,8 @@ def c_hom(c):
     p, q = c.reals('p', 4), c.reals('q', 4)
     c.assume(ne(dot(p, p), 0)); c.assume(ne(dot(q, q), 0))
     P, Q = a.Quaternion(p), a.Quaternion(q)
+    c.summarize('Pn', P.A, lambda a: eq(dot(a, a), 1))      # from here on P, Q are just unit quaternions
+    c.summarize('Qn', Q.A, lambda a: eq(dot(a, a), 1))
     if c.p['via'] == 'product':
         pq = P.product(Q)
     elif c.p['via'] == 'mul':
